@@ -10,10 +10,12 @@ From PV Require Import Base.QAux Base.RI Base.Expr Lin.Mat.
 Import ListNotations.
 Open Scope Q_scope.
 
-Record state := mkState { sz : vec; sd : Q; sd0 : Q }.     (* overlaps, weight at t, weight at t0 *)
+(* su: overlap vector on the row (sink) side, sz: on the column (source) side -- equal for a symmetric correlator matrix, different
+   lengths for the rectangular Hankel matrices of the matrix-pencil method; sd, sd0: weight at t and at t0 *)
+Record state := mkState { su : vec; sz : vec; sd : Q; sd0 : Q }.
 Definition sumv (n : nat) (l : list vec) : vec := fold_right vaddv (repeat 0 n) l.
-Definition G_apply (sts : list state) (n : nat) (v : vec) : vec := sumv n (map (fun s => vscal (sd s * dotv (sz s) v) (sz s)) sts).
-Definition G0_apply (sts : list state) (n : nat) (v : vec) : vec := sumv n (map (fun s => vscal (sd0 s * dotv (sz s) v) (sz s)) sts).
+Definition G_apply (sts : list state) (n : nat) (v : vec) : vec := sumv n (map (fun s => vscal (sd s * dotv (sz s) v) (su s)) sts).
+Definition G0_apply (sts : list state) (n : nat) (v : vec) : vec := sumv n (map (fun s => vscal (sd0 s * dotv (sz s) v) (su s)) sts).
 
 Lemma veq_sym a : forall b, veq a b -> veq b a.
 Proof. induction a as [|x a IH]; intros b H; inversion H; subst; constructor; [symmetry; assumption | apply IH; assumption]. Qed.
@@ -34,37 +36,37 @@ Proof. intro H. induction z as [|x z IH]; [constructor|]. cbn. constructor; [rew
 
 (* states orthogonal to v do not contribute *)
 Lemma sumv_orthogonal (w : state -> Q) (sts : list state) (n : nat) (v : vec) :
-  Forall (fun r => List.length (sz r) = n /\ dotv (sz r) v == 0) sts ->
-  veq (sumv n (map (fun s => vscal (w s * dotv (sz s) v) (sz s)) sts)) (repeat 0 n).
+  Forall (fun r => List.length (su r) = n /\ dotv (sz r) v == 0) sts ->
+  veq (sumv n (map (fun s => vscal (w s * dotv (sz s) v) (su s)) sts)) (repeat 0 n).
 Proof.
   induction sts as [|r sts IH]; intro H; [apply veq_refl|]. apply Forall_cons_iff in H. destruct H as [[L O] H']. cbn [map sumv fold_right].
-  fold (sumv n (map (fun s => vscal (w s * dotv (sz s) v) (sz s)) sts)).
+  fold (sumv n (map (fun s => vscal (w s * dotv (sz s) v) (su s)) sts)).
   eapply veq_trans; [apply veq_vaddv; [apply (vscal_zero' _ _ n L); rewrite O; ring | apply IH; exact H']|].
   apply vaddv_zero_l. apply repeat_length.
 Qed.
 
 (* only the state the vector is dual to survives *)
 Lemma sumv_dual (w : state -> Q) (pre post : list state) (s : state) (n : nat) (v : vec) :
-  Forall (fun r => List.length (sz r) = n /\ dotv (sz r) v == 0) pre ->
-  Forall (fun r => List.length (sz r) = n /\ dotv (sz r) v == 0) post ->
-  List.length (sz s) = n ->
-  veq (sumv n (map (fun r => vscal (w r * dotv (sz r) v) (sz r)) (pre ++ s :: post))) (vscal (w s * dotv (sz s) v) (sz s)).
+  Forall (fun r => List.length (su r) = n /\ dotv (sz r) v == 0) pre ->
+  Forall (fun r => List.length (su r) = n /\ dotv (sz r) v == 0) post ->
+  List.length (su s) = n ->
+  veq (sumv n (map (fun r => vscal (w r * dotv (sz r) v) (su r)) (pre ++ s :: post))) (vscal (w s * dotv (sz s) v) (su s)).
 Proof.
   intros Hpre Hpost L. induction pre as [|r pre IH].
-  - cbn [app map sumv fold_right]. fold (sumv n (map (fun r => vscal (w r * dotv (sz r) v) (sz r)) post)).
+  - cbn [app map sumv fold_right]. fold (sumv n (map (fun r => vscal (w r * dotv (sz r) v) (su r)) post)).
     eapply veq_trans; [apply veq_vaddv; [apply veq_refl | apply (sumv_orthogonal w post n v Hpost)]|].
     apply vaddv_zero_r. rewrite vscal_length. exact L.
   - apply Forall_cons_iff in Hpre. destruct Hpre as [[Lr Or] Hpre']. cbn [app map sumv fold_right].
-    fold (sumv n (map (fun r0 => vscal (w r0 * dotv (sz r0) v) (sz r0)) (pre ++ s :: post))).
+    fold (sumv n (map (fun r0 => vscal (w r0 * dotv (sz r0) v) (su r0)) (pre ++ s :: post))).
     eapply veq_trans; [apply veq_vaddv; [apply (vscal_zero' _ _ n Lr); rewrite Or; ring | apply IH; exact Hpre']|].
     apply vaddv_zero_l. rewrite vscal_length. exact L.
 Qed.
 
 (* the eigen-equation for a dual vector: d_s(t0) G(t) v = d_s(t) G(t0) v, entry by entry *)
 Theorem dual_vector_solves_gevp (pre post : list state) (s : state) (n : nat) (v : vec) :
-  Forall (fun r => List.length (sz r) = n /\ dotv (sz r) v == 0) pre ->
-  Forall (fun r => List.length (sz r) = n /\ dotv (sz r) v == 0) post ->
-  List.length (sz s) = n ->
+  Forall (fun r => List.length (su r) = n /\ dotv (sz r) v == 0) pre ->
+  Forall (fun r => List.length (su r) = n /\ dotv (sz r) v == 0) post ->
+  List.length (su s) = n ->
   veq (vscal (sd0 s) (G_apply (pre ++ s :: post) n v)) (vscal (sd s) (G0_apply (pre ++ s :: post) n v)).
 Proof.
   intros Hpre Hpost L. unfold G_apply, G0_apply.
@@ -80,13 +82,13 @@ Qed.
 
 (* the projected correlator of a dual vector is a single exponential: v . G(t) v = d_s(t) (z_s . v)^2 *)
 Theorem dual_vector_projects_single_state (pre post : list state) (s : state) (n : nat) (v : vec) :
-  Forall (fun r => List.length (sz r) = n /\ dotv (sz r) v == 0) pre ->
-  Forall (fun r => List.length (sz r) = n /\ dotv (sz r) v == 0) post ->
-  List.length (sz s) = n ->
-  dotv v (G_apply (pre ++ s :: post) n v) == sd s * (dotv (sz s) v * dotv (sz s) v).
+  Forall (fun r => List.length (su r) = n /\ dotv (sz r) v == 0) pre ->
+  Forall (fun r => List.length (su r) = n /\ dotv (sz r) v == 0) post ->
+  List.length (su s) = n ->
+  dotv v (G_apply (pre ++ s :: post) n v) == sd s * (dotv (sz s) v * dotv (su s) v).
 Proof.
   intros Hpre Hpost L. unfold G_apply. rewrite (dotv_veq_r v _ _ (sumv_dual sd pre post s n v Hpre Hpost L)).
-  rewrite dotv_vscal_r. rewrite (dotv_comm v (sz s)). ring.
+  rewrite dotv_vscal_r. rewrite (dotv_comm v (su s)). ring.
 Qed.
 
 (* ------------------------------------------------------------------ verdicts on the implementation's matrices and vectors *)
